@@ -419,3 +419,45 @@ def known_at(stmt: ast.AST, goal_src: str, fn_node: ast.AST | None = None) -> bo
     fn_node, singly-defined locals in the tests are replaced by their definitions first (`s = self._state`)."""
     goal = ast.parse(goal_src, mode="eval").body
     return any(edge_implies(expand(fn_node, t) if fn_node is not None else t, v, goal) for t, v in facts_at(stmt))  # type: ignore[arg-type]
+
+
+# ---- inlining of trivial pure helpers: extracting an expression into `def h(a, b): return <expr>` changes nothing ------
+
+
+def inline_calls(ctx: Ctx, f: FuncInfo, e: ast.AST, depth: int = 2) -> ast.AST:
+    """`e` with every call of a repository function whose body is a single `return <expression over its parameters>` replaced
+    by that expression (arguments substituted). Calls with starred/keyword-only oddities or impure callees are left alone."""
+
+    def body_expr(c: FuncInfo) -> ast.expr | None:
+        stmts = [s for s in c.node.body if not (isinstance(s, ast.Expr) and isinstance(s.value, ast.Constant))]
+        if len(stmts) == 1 and isinstance(stmts[0], ast.Return) and stmts[0].value is not None and not c.is_async:
+            return stmts[0].value
+        return None
+
+    def clone(node, subst, d):
+        if isinstance(node, ast.Name) and node.id in subst:
+            return clone(subst[node.id], {}, d)
+        if isinstance(node, ast.Call) and d > 0:
+            site = ctx.cg.site_of.get(id(node))
+            if site is not None and len(site.callees) == 1 and not site.external and not site.unresolved:
+                c = site.callees[0]
+                be = body_expr(c)
+                params = [a.arg for a in c.node.args.posonlyargs + c.node.args.args]
+                if params and params[0] in ("self", "cls") and isinstance(node.func, ast.Attribute):
+                    params = params[1:]
+                if be is not None and not any(isinstance(a, ast.Starred) for a in node.args) and len(node.args) + len(node.keywords) == len(params) and all(k.arg in params for k in node.keywords):
+                    binding = {p: clone(a, subst, d) for p, a in zip(params, node.args)}
+                    binding.update({k.arg: clone(k.value, subst, d) for k in node.keywords})
+                    return clone(be, binding, d - 1)
+        if isinstance(node, ast.AST):
+            new = type(node)()
+            for fld in node._fields:
+                v = getattr(node, fld, None)
+                setattr(new, fld, [clone(x, subst, d) for x in v] if isinstance(v, list) else clone(v, subst, d))
+            for a in ("lineno", "col_offset", "end_lineno", "end_col_offset"):
+                if hasattr(node, a):
+                    setattr(new, a, getattr(node, a))
+            return new
+        return node
+
+    return clone(e, {}, depth)
